@@ -172,6 +172,12 @@ func c13(c *an.Check) {
 					return ia.X
 				}
 			}
+			if lk, ok := v.(*ssa.Lookup); ok { // s[i] on a string
+				return lk.X
+			}
+			if ix, ok := v.(*ssa.Index); ok { // s[i] on a string / array value
+				return ix.X
+			}
 			return nil
 		}
 		for _, b := range an.ScanBlocks(dk) {
@@ -183,8 +189,10 @@ func c13(c *an.Check) {
 				bx, by := elemOf(x.X), elemOf(x.Y)
 				fromMat := func(v ssa.Value) bool { return v != nil && p.DependsOn(v, isECDH) }
 				fromCtx := func(v ssa.Value) bool {
-					cv, isConv := v.(*ssa.Convert)
-					return isConv && an.IsParam(cv.X, 0)
+					if cv, isConv := v.(*ssa.Convert); isConv {
+						v = cv.X
+					}
+					return v != nil && an.IsParam(v, 0)
 				}
 				if okIn && !((fromMat(bx) && fromCtx(by)) || (fromMat(by) && fromCtx(bx))) {
 					okIn, why = false, "the xor at "+p.Pos(x.Pos())+" does not combine a key-material byte with a context byte (x ^ x erases the key material: different keys derive the same output)"
@@ -242,7 +250,23 @@ func c13(c *an.Check) {
 	okF := len(dc) == 1 && an.IsParam(dc[0].Call.Args[0], 0) && an.IsParam(dc[0].Call.Args[1], 1) && an.IsParam(dc[0].Call.Args[2], 2)
 	if okF {
 		nk := an.Calls(de, cNewKeySeed)
-		okF = len(nk) == 1 && nk[0].Call.Args[0] == dc[0].Call.Args[3]
+		// the same storage: the very value, or two views (seed[:]) of one local buffer
+		sameBuf := func(a, b ssa.Value) bool {
+			if a == b {
+				return true
+			}
+			ra := an.AliasRoots(a)
+			for r := range an.AliasRoots(b) {
+				switch r.(type) {
+				case *ssa.Alloc, *ssa.MakeSlice:
+					if ra[r] {
+						return true
+					}
+				}
+			}
+			return false
+		}
+		okF = len(nk) == 1 && sameBuf(nk[0].Call.Args[0], dc[0].Call.Args[3])
 	}
 	c.Require(okF, "PROVENANCE", "peer.DeriveEd25519Key seeds the key with DeriveKey(context, salt, key)", de, "", 2, "NewKeyFromSeed(seed filled by DeriveKey(context,salt,privKey,seed))", "the Ed25519 seed is not the output of DeriveKey on the three inputs")
 	c.Trust("BLAKE3 KDF, X25519, Ed25519 are deterministic functions of their inputs")
